@@ -68,7 +68,8 @@ def run(module, cfg=None, mode="bfs", workers=8, num=100, depth=60, seed=0, time
             with open(os.path.join(work, name), "w") as fh:
                 fh.write(content)
         cfg = cfg or (module + ".cfg")
-        jopts = ["-XX:+UseSerialGC" if workers <= 2 else "-XX:+UseParallelGC", "-Xmx" + heap, "-Xss16m"]
+        # (java.io.tmpdir inside the work directory: TLC creates an empty tlc-<n> directory per run there, removed with the rest)
+        jopts = ["-XX:+UseSerialGC" if workers <= 2 else "-XX:+UseParallelGC", "-Xmx" + heap, "-Xss16m", "-Djava.io.tmpdir=" + work]
         if workers > 2:
             jopts.append("-XX:ParallelGCThreads=4")
         if dfs_queue:
